@@ -11,6 +11,8 @@ import sched as SC
 import simnet
 from refserver import RefServer
 
+EXTRA_PROPS = ['C16Live']
+
 RULE = ("call histories of length <= 6 over {connect, status, disconnect, disconnect(immediate)} with "
         "optional reconnect-from-listener / reconnect-from-exception-handler budgets against per-attempt "
         "server behaviours {accept (silent), refuse, disconnect, fail}; sequential histories compared with "
